@@ -24,7 +24,7 @@ ASSUMPTIONS = [
     "'discarded' for prune/expand/replace-with-deletion = nodes reachable from the operated root before but not after",
     "attach and replace without deletion do not change the registry",
 ]
-REQUIRED = ["nodes_in_one_copy", "op:borrow", "documents_closed_and_reopened", "op:create", "op:copy", "op:from_xml", "op:from_json", "op:attach", "op:replace_delete", "op:replace_keep", "op:prune",
+REQUIRED = ["misplaced_sweep_cases", "op:expand_dangling", "dangling_expansions_that_raised", "nodes_in_one_copy", "op:borrow", "documents_closed_and_reopened", "op:create", "op:copy", "op:from_xml", "op:from_json", "op:attach", "op:replace_delete", "op:replace_keep", "op:prune",
             "op:prune_strict", "op:expand", "op:delete", "op:delete_keep_children", "op:forget", "op:replace_rejected", "id_stress_nodes", "ops_discarding", "ops_creating"]
 EXHAUSTIVE = {"quick": False, "thorough": False}
 
@@ -115,7 +115,7 @@ def fresh_json(root):
 
     style = STYLE[0]
 
-    STYLE[0] = (style + 1) % 5
+    STYLE[0] = (style + 1) % 7
 
     def new_id():
         # ids as other tools write them: lower case, UPPER CASE, in braces, as a URN - or plain numbers
@@ -123,6 +123,13 @@ def fresh_json(root):
         if style == 4:
             COUNTER[0] += 1
             return COUNTER[0]
+        if style == 5:
+            # ids that read like URL-encoded text (a package path, a percentage) - they are ids as they stand
+            COUNTER[0] += 1
+            return f"edi.900.{COUNTER[0]}%2Fdataset%2Ftitle"
+        if style == 6:
+            COUNTER[0] += 1
+            return ("cover100%25-", "a%20b-", "x+y-", "caf%C3%A9-", "%41-")[COUNTER[0] % 5] + str(COUNTER[0])
         return u if style == 0 else u.upper() if style == 1 else "{" + u.upper() + "}" if style == 2 else "urn:uuid:" + u
 
     def walk(o):
@@ -204,7 +211,7 @@ def one_history(ctx, gen, hno):
     for step in range(60):
         before = dict(Node.store)
         ops = ["create", "create", "copy", "from_xml", "from_json", "attach", "replace_delete", "replace_keep", "prune", "prune_strict",
-               "expand", "delete", "delete_keep_children", "forget", "replace_rejected", "close_and_reopen", "borrow"]
+               "expand", "expand_dangling", "delete", "delete_keep_children", "forget", "replace_rejected", "close_and_reopen", "borrow"]
         op = rng.choice(ops)
         if live_count() > 200:
             op = "delete"
@@ -351,6 +358,40 @@ def one_history(ctx, gen, hno):
                 mon.check(op, before, created, discarded, wit)
                 history[-1] = [op, f"tree of {len(rb)} nodes, {k} references"]
                 held.append(t)
+            elif op == "expand_dangling":
+                # references that name a system (their own document's, another repository's) and references that resolve to nothing:
+                # whether expand() raises or not, no node still in the tree leaves the registry and nothing discarded stays in it
+                t, k = tree_with_references(rng, noref_gen())
+                top = Node("eml")
+                home = rng.choice([None, "knb", "https://pasta.edirepository.org"])
+                if home is not None:
+                    top.add_attribute("system", home)
+                top.add_child(t)
+                refs = []
+                t.find_all_descendants("references", refs)
+                for r_ in refs:
+                    if rng.random() < 0.5:
+                        r_.add_attribute("system", rng.choice(["knb", "https://pasta.edirepository.org", "https://elsewhere.example"]))
+                extra = Node(rng.choice(["contact", "creator"]))
+                dang = Node("references", content=rng.choice(["other.7", "party-", "", None, "PARTY-0"]))
+                if rng.random() < 0.7:
+                    dang.add_attribute("system", rng.choice(["knb", "https://pasta.edirepository.org", "https://elsewhere.example"]))
+                extra.add_child(dang)
+                t.add_child(extra, rng.choice([None, 0]))
+                before = dict(Node.store)
+                rb = reach(top)
+                history.append([op, snapshot.to_plain(top)])
+                try:
+                    references.expand(top if rng.random() < 0.7 else t)
+                    ctx.count("dangling_expansions_that_returned")
+                except Exception:
+                    ctx.count("dangling_expansions_that_raised")
+                ra = reach(top)
+                created = [n for i, n in ra.items() if i not in rb]
+                discarded = [n for i, n in rb.items() if i not in ra]
+                mon.check(op, before, created, discarded, wit)
+                history[-1] = [op, f"tree of {len(rb)} nodes, {k} references and a dangling one"]
+                held.append(top)
             elif op == "replace_rejected" and len(held) >= 2:
                 # a replace that must be refused (the 'old' node is not a child of the receiver): nothing may leave the registry
                 a, b = rng.sample(range(len(held)), 2)
@@ -434,6 +475,51 @@ def one_history(ctx, gen, hno):
     emlkit.discard(*held)
 
 
+def misplaced_sweep(ctx, gen):
+    """Every element the library knows, with a child of its own, put where it does not belong - below eml, dataset, a creator, an access
+    element of a small valid document - and pruned: whatever prune does with it (drops it, and be it to keep it somewhere else), no node
+    that is still in the tree afterwards has left the registry and no node that is gone is still in it."""
+    from vlib.emlkit import mrule
+    history = []
+    mon = Monitor(ctx, history)
+    for e in list(mrule.node_names()) + ["verifUnknown"]:
+        for host in ("eml", "dataset", "creator", "access", "additionalMetadata"):
+            for with_access in (False, True):
+                t = Node("eml")
+                if with_access or host == "access":
+                    t.add_child(gen.minimal_tree("access"))
+                ds = gen.minimal_tree("dataset")
+                t.add_child(ds)
+                am = Node("additionalMetadata")
+                am.add_child(Node("metadata"))
+                t.add_child(am)
+                where = t if host == "eml" else ds if host == "dataset" else am if host == "additionalMetadata" else \
+                    (ds.find_child("creator") if host == "creator" else t.find_child("access"))
+                if where is None:
+                    emlkit.discard(t)
+                    continue
+                x = gen.minimal_tree(e) if gen.buildable(e) else Node(e)
+                if not x.children:
+                    x.add_child(Node("verifBelow"))
+                where.add_child(x, 0 if with_access else None)
+                if e in emlkit.spec_of(mrule.node_mappings[where.name]).names:
+                    ctx.count("misplaced_sweep_cases_where_the_child_is_allowed")
+                before = dict(Node.store)
+                rb = reach(t)
+                history[:] = [["prune", snapshot.to_plain(t)]]
+                try:
+                    mvalidate.prune(t, strict=with_access)
+                except Exception as ex:
+                    ctx.violation(f"crash:prune:{type(ex).__name__}@{emlkit.raise_site(ex)}", f"prune raised {ex!r}", {"history": list(history)})
+                    emlkit.discard(t)
+                    continue
+                ra = reach(t)
+                mon.check("prune", before, [n for i, n in ra.items() if i not in rb], [n for i, n in rb.items() if i not in ra],
+                          lambda: {"history": list(history)})
+                ctx.count("misplaced_sweep_cases")
+                emlkit.discard(t)
+
+
 def id_space_stress(ctx, count):
     """Many simultaneously live nodes: every one retrievable, no two sharing an id (a short or coarse id scheme only shows here)."""
     nodes = [Node("n") for _ in range(count)]
@@ -489,6 +575,7 @@ def run(ctx, params):
     if params.get("histories"):
         id_space_stress(ctx, 250_000 if ctx.tier == "quick" else 400_000)
         ctx.case(big_copy, ctx, 16500, seconds=600.0)
+        ctx.case(misplaced_sweep, ctx, gen, seconds=600.0)
     for h in range(params["histories"]):
         ctx.case(one_history, ctx, gen, h, seconds=60.0)
         ctx.count("histories")
@@ -503,6 +590,27 @@ def replay(ctx, witness):
     if "id_stress" in witness:
         id_space_stress(ctx, witness["id_stress"])
         ctx.distinct(1)
+        return
+    last = (witness.get("history") or [[None]])[-1]
+    if len(last) == 2 and isinstance(last[1], dict) and last[0] in ("prune", "prune_strict", "expand", "expand_dangling"):
+        # the operation that was being watched when the monitor spoke, on the tree it was given
+        t = snapshot.from_plain(Node, last[1])
+        before = dict(Node.store)
+        rb = reach(t)
+        root_pruned = False
+        try:
+            if last[0].startswith("prune"):
+                for strict in ((False, True) if last[0] == "prune" else (True,)):
+                    pruned = mvalidate.prune(t, strict=strict)
+                    root_pruned = root_pruned or any(p_[0] is t for p_ in pruned)
+            else:
+                references.expand(t)
+        except Exception:
+            pass
+        ra = {} if root_pruned else reach(t)
+        Monitor(ctx, []).check(last[0], before, [n for i, n in ra.items() if i not in rb], [n for i, n in rb.items() if i not in ra], lambda: witness)
+        ctx.distinct(1)
+        ctx.distinct(2)
         return
     # histories are replayed from the seed: the witness documents the operations; re-run a short burst with the same monitor
     gen = treegen.Gen()
